@@ -31,14 +31,18 @@ use {
         Tarjan,
         Vertices,
     },
-    std::collections::BTreeSet,
+    std::collections::{
+        BTreeMap,
+        BTreeSet,
+    },
 };
 
 /// Johnson's circuit-finding algorithm.
 #[derive(Clone, Debug, Eq, PartialEq)]
 pub struct Johnson75<'a, D> {
     a: &'a D,
-    b: Vec<BTreeSet<usize>>,
+    // Keyed by vertex id: the ids aren't necessarily `0..order`.
+    b: BTreeMap<usize, BTreeSet<usize>>,
     blocked: BTreeSet<usize>,
     stack: Vec<usize>,
 }
@@ -50,13 +54,13 @@ impl<'a, D> Johnson75<'a, D> {
     ///
     /// * `a`: The digraph.
     #[must_use]
-    pub fn new(a: &'a D) -> Self
+    pub const fn new(a: &'a D) -> Self
     where
         D: Order,
     {
         Self {
             a,
-            b: vec![BTreeSet::new(); a.order()],
+            b: BTreeMap::new(),
             blocked: BTreeSet::new(),
             stack: Vec::new(),
         }
@@ -70,9 +74,10 @@ impl<'a, D> Johnson75<'a, D> {
     fn unblock(&mut self, u: usize) {
         if self.is_blocked(u) {
             let _ = self.blocked.remove(&u);
-            let b_ptr = self.b.as_mut_ptr();
 
-            while let Some(v) = unsafe { (*b_ptr.add(u)).pop_first() } {
+            while let Some(v) =
+                self.b.get_mut(&u).and_then(BTreeSet::pop_first)
+            {
                 self.unblock(v);
             }
         }
@@ -107,10 +112,8 @@ impl<'a, D> Johnson75<'a, D> {
         if f {
             self.unblock(v);
         } else {
-            let b_ptr = self.b.as_mut_ptr();
-
             for w in scc.out_neighbors(v) {
-                let _ = unsafe { (*b_ptr.add(w)).insert(v) };
+                let _ = self.b.entry(w).or_default().insert(v);
             }
         }
 
@@ -166,16 +169,13 @@ impl<'a, D> Johnson75<'a, D> {
 
                 if component.order() > 0 {
                     let &start = min_scc.iter().min().unwrap();
-                    let b_ptr = self.b.as_mut_ptr();
 
                     for vertex in component.vertices() {
                         let _ = self.blocked.remove(&vertex);
 
-                        unsafe {
-                            if let Some(b_set) = b_ptr.add(vertex).as_mut() {
-                                b_set.clear();
-                            }
-                        };
+                        if let Some(b_set) = self.b.get_mut(&vertex) {
+                            b_set.clear();
+                        }
                     }
 
                     let _ =
